@@ -1,6 +1,9 @@
 #!/bin/bash
-# Warm the build cache offline: builds the weaver and one worker from /repo.
+# Warm the Go build cache offline: the weaver and the three worker flavours
+# (default, race, purego) built from /repo's current tree. Runs no check.
 set -u
 cd "$(dirname "$0")"
-VERIF_RUNS=8 VERIF_NODET=1 VERIF_SETUP=1 ./check C04 >/dev/null 2>&1
+for p in C04 C12 C15; do
+  VERIF_SETUP=1 ./check $p >/dev/null 2>&1
+done
 exit 0
